@@ -684,6 +684,8 @@ def install(I, mkcls, meth):
     reg("ascontiguousarray")(lambda i, a, k: asarray(i, a[0], k.get("dtype", a[1] if len(a) > 1 else None)))
     reg("asanyarray")(lambda i, a, k: asarray(i, a[0], k.get("dtype", a[1] if len(a) > 1 else None)))
     reg("dtype")(lambda i, a, k: Opaque("np.dtype", (a[0],)))
+    reg("reshape")(lambda i, a, k: m_reshape(i, asarray(i, a[0]) if not (isinstance(a[0], (ListV, tuple)) and not list(i.iterate(a[0]))) else mk([], "float"),
+                                             [a[1]] if len(a) > 1 else [k.get("newshape", k.get("shape"))], {}))
     reg("dot")(lambda i, a, k: dot(i, a[0], a[1]))
     reg("matmul")(lambda i, a, k: dot(i, a[0], a[1]))
     reg("cross")(lambda i, a, k: cross(i, a[0], a[1]))
